@@ -263,15 +263,16 @@ func replay(root, cases, out, cli string, cliMax int, selfbug string) int {
 			}
 			atomic.AddInt64(&cliRuns, 1)
 			rc := renderScript(h.vocab, c.Script, arch, rng, false)
-			code, outp := runCLI(cli, root, name+"c", []byte(rc.Text), c.Root.Coe)
+			variant := int(rng.Int63n(6))
+			code, outp := runCLIMulti(cli, root, name+"c", []byte(rc.Text), c.Root.Coe, variant)
 			if selfbug == "cli" && code == 1 && len(c.Script) == 2 {
 				code = 0
 			}
-			wantZero := exp.Verdict != "fail"
+			wantZero := exp.Verdict != "fail" && variant < 4
 			if (code == 0) != wantZero {
 				cls := classify(&c, h, &runResult{Verdict: map[bool]string{true: "skip", false: "panic"}[code == 0]}, rc)
-				res.Violate(vutil.Finding{Kind: "cli-exit-status", What: fmt.Sprintf("cmd/testscript%s exits %d, the script's verdict is %s -- %s",
-					map[bool]string{true: " -continue", false: ""}[c.Root.Coe], code, exp.Verdict, rc.Plain),
+				res.Violate(vutil.Finding{Kind: "cli-exit-status", What: fmt.Sprintf("cmd/testscript%s (invocation variant %d: 0 alone, 1 +pass, 2 +skip, 3 pass+, 4 fail+, 5 +fail) exits %d, the script's verdict is %s -- %s",
+					map[bool]string{true: " -continue", false: ""}[c.Root.Coe], variant, code, exp.Verdict, rc.Plain),
 					Input:  map[string]interface{}{"continue": c.Root.Coe, "script": rc.Text},
 					Detail: map[string]interface{}{"output": outp, "expected": exp}, Class: cls})
 			}
